@@ -96,3 +96,17 @@ package account
 //@   allocates Account, uint256.Int
 //@   assert@call(AddBalance,0): $arg0 == as(acctobj(ctrler.acctLedger, lkey(content(to)), exec ? 1 : 0), ptr(Account)) && $arg1 == amt   [C02,C12,C13]
 //@   assert@call(setAccountCommittable,0): $arg1 == as(acctobj(ctrler.acctLedger, lkey(content(to)), exec ? 1 : 0), ptr(Account)) && $arg2 == exec   [C06]
+
+// ---- block end (C16, C02): the block's fee sum is credited, once, to the proposer's account as seen on the
+// consensus path (or to a fresh account for an unknown proposer), and that account is written back on the
+// consensus path; without a proposer or without fees nothing changes
+//@ func (ctrler *AcctCtrler) EndBlock(ctx)
+//@   objinv ctrler != nil && ctrler.acctLedger != nil
+//@   assumes cons_ok
+//@   requires ctx != nil && ctx.feeSum != nil
+//@   modifies mem(uint256.Int), allmaps(memItems.gotItems), itemkey, itemenc
+//@   allocates Account, uint256.Int
+//@   assert@call(findAccount,0): $arg2 == true                                                                [C06,C16]
+//@   assert@call(AddBalance,0): ($arg0 == as(acctobj(ctrler.acctLedger, lkey(content(ctx.blockInfo.Header.ProposerAddress)), 1), ptr(Account)) || fresh($arg0)) && u($arg1) == old(u(ctx.feeSum)) && u($arg1) > 0   [C16,C02]
+//@   assert@call(setAccountCommittable,0): $arg2 == true                                                      [C06,C16]
+//@   ensures old(u(ctx.feeSum)) == 0 ==> (forall x :: old(allocated(x)) ==> u(x) == old(u(x)))                [C02]
